@@ -238,3 +238,75 @@ theorem sorted_find_eq (l : List KeyEntry) (hs : SortedKE l) (key : Key) :
         simpa using (klt_ne this).symm
 
 end Influx.Tsm
+
+namespace Influx.Tsm
+
+/-- what every reachable index satisfies: the parsed keys are strictly sorted, the
+    live keys are a sub-list of them, the key range is that of the parsed keys -/
+structure IndexInv (ix : Index) : Prop where
+  sortedAll : SortedKE ix.all
+  sub : ix.live.Sublist ix.all
+  minK : ix.minKey = (ix.all.head?.map (·.key)).getD []
+  maxK : ix.maxKey = (ix.all.getLast?.map (·.key)).getD []
+
+theorem IndexInv.sortedLive {ix : Index} (h : IndexInv ix) : SortedKE ix.live :=
+  List.Pairwise.sublist h.sub h.sortedAll
+
+theorem sorted_head_le (l : List KeyEntry) (hs : SortedKE l) (ke : KeyEntry) (hke : ke ∈ l) :
+    kle ((l.head?.map (·.key)).getD []) ke.key = true := by
+  cases l with
+  | nil => cases hke
+  | cons a l =>
+    simp only [List.head?_cons, Option.map_some, Option.getD_some]
+    rcases List.mem_cons.mp hke with rfl | h
+    · exact kle_refl _
+    · exact kle_of_klt ((List.pairwise_cons.mp hs).1 ke h)
+
+theorem sorted_le_last (l : List KeyEntry) (hs : SortedKE l) (ke : KeyEntry) (hke : ke ∈ l) :
+    kle ke.key ((l.getLast?.map (·.key)).getD []) = true := by
+  induction l with
+  | nil => cases hke
+  | cons a l ih =>
+    have hs' : SortedKE l := (List.pairwise_cons.mp hs).2
+    cases l with
+    | nil =>
+      simp at hke; subst hke; simp [kle_refl]
+    | cons b l =>
+      have hl : (a :: b :: l).getLast? = (b :: l).getLast? := by simp [List.getLast?_cons_cons]
+      rw [hl]
+      rcases List.mem_cons.mp hke with rfl | h
+      · have hb : (b :: l).getLast? ≠ none := by simp
+        obtain ⟨z, hz⟩ := Option.ne_none_iff_exists'.mp hb
+        have hzm : z ∈ b :: l := List.mem_of_getLast? hz
+        rw [hz]
+        exact kle_of_klt ((List.pairwise_cons.mp hs).1 z hzm)
+      · exact ih hs' h
+
+theorem containsKey_of_mem {ix : Index} (h : IndexInv ix) {ke : KeyEntry} (hke : ke ∈ ix.live) :
+    containsKey ix ke.key = true := by
+  have hall : ke ∈ ix.all := h.sub.subset hke
+  simp only [containsKey, h.minK, h.maxK, Bool.and_eq_true]
+  exact ⟨sorted_head_le _ h.sortedAll ke hall, sorted_le_last _ h.sortedAll ke hall⟩
+
+/-- **search** (the exact lookup behind `Entries`, `Type`, `Contains`): the live entry
+    with that key, if any. -/
+theorem search_eq_find {ix : Index} (h : IndexInv ix) (key : Key) :
+    search ix key = ix.live.find? (fun ke => ke.key = key) := by
+  unfold search
+  by_cases hc : containsKey ix key = true
+  · simp only [hc, Bool.not_true, Bool.false_eq_true, if_false]
+    rw [searchOffset_eq_rank ix h.sortedLive, sorted_find_eq _ h.sortedLive]
+    cases ix.live[rank ix.live key]? <;> rfl
+  · simp only [hc, Bool.not_false, if_true]
+    symm
+    apply List.find?_eq_none.mpr
+    intro ke hke
+    simp only [decide_eq_true_eq]
+    intro heq
+    subst heq
+    exact hc (containsKey_of_mem h hke)
+
+theorem mkIndex_inv (kes : List KeyEntry) (hs : SortedKE kes) : IndexInv (mkIndex kes) :=
+  ⟨hs, List.Sublist.refl _, rfl, rfl⟩
+
+end Influx.Tsm
